@@ -17,7 +17,7 @@ ASSUMPTIONS = ['oracle: ast.parse(text, filename) of the running CPython 3.12.1 
 EXPLANATION = 'bounded-exhaustive enumeration of inputs executed on the real verify(); oracle = CPython parser'
 
 TOK = ['a', '=', '1', '(', ')', ':', '\n', ' ', '\t', 'if ', 'def ', "'", '#', '\\', '\x00', '\r', '\x0c',
-       '\u00e9', '"""', '\xa0']
+       '\u00e9', '"""', '\xa0', '# type: x', '# type: ignore']
 
 SEEDS = [
     "a = 1\n",
@@ -32,6 +32,10 @@ SEEDS = [
     "\u00e9t\u00e9 = 'caf\u00e9'\n",
     "x = {'k': [1, (2, 3)]}\n",
     "try:\n    a = 1\nexcept E:\n    pass\n",
+    "# type: list of names\nnames = []  # type: list\nprint(names)  # type: ignore\n",
+    "if a:  # type: bool\n    b = [1,  # type: int\n         2]\n",
+    "def f(a, b):\n    # type: (int, int) -> int\n    return a\n",
+    "x = 'page\x0cbreak'\n\x0c\ny = 2\n",
 ]
 INS = ['a', '=', '1', '(', ')', ':', '\n', ' ', '\t', "'", '#', '\\', '\x00', '\r', '\x0c', '\u00e9', '"', '\xa0', ',']
 
@@ -156,7 +160,7 @@ def make_sections(tier):
         if tier == 'quick' and i not in shortest:
             eds = eds[:1 + len(SEEDS[i])]      # deletions only
         table.append(eds)
-    fillers = ["y = 0\n", "", "if y:\n    z = (1,\n         2)\n\n"]
+    fillers = ["y = 0\n", "", "if y:\n    z = (1,\n         2)\n\n", "p = 'a\x0cb'\n\x0c\nq = 1\x0b\n"]
 
     def body(ctx):
         si = ctx.choose(len(SEEDS), 'seed')
@@ -167,9 +171,10 @@ def make_sections(tier):
         chunks[pos] = text if (text.endswith('\n') or text == '') else text + '\n'
         # file: prologue, marker 1, section 1, marker 2, section 2
         original = chunks[0] + (MARK % 1) + '\n' + chunks[1] + (MARK % 2) + '\n' + chunks[2]
-        if '\r' in text or '\x0c' in text:
-            # splitlines/regex '$' treat these differently from "\n"; the statement's offset is in
-            # "lines of the original file", which we count with "\n" only -- keep those inputs to phase 1/2
+        if '\r' in text:
+            # CPython counts a bare carriage return as a line end, so "lines of the original file" is ambiguous
+            # for such text -- those inputs stay in phases 1/2 (form feed and vertical tab are NOT line ends for
+            # CPython's parser and are kept)
             ctx.abstain()
             return
         ctx.observe(original)
